@@ -9,7 +9,13 @@ for name in sys.argv[1:]:
     shutil.copy(f'{src}/patch.diff', f'{dst}/patch.diff')
     shutil.copy(f'{src}/demo_test.go', f'{dst}/demo_test.go')
     notes = open(f'{src}/notes.txt').read()
-    conf = subprocess.run(['/verif/tools/confirm_mutant.sh', src], capture_output=True, text=True).stdout.strip()
+    conf = ''
+    for log in glob.glob('/verif/.cache/confirm_*.log'):
+        for line in open(log):
+            if line.startswith(name + ' '):
+                conf = line.strip()
+    if not conf:
+        conf = subprocess.run(['/verif/tools/confirm_mutant.sh', src], capture_output=True, text=True).stdout.strip()
     runs = []
     for f in sorted(glob.glob(f'/verif/.cache/mutants/{name}.*.txt')):
         _, prop, tier, _ = os.path.basename(f).split('.')
